@@ -6,6 +6,7 @@
 (*                                                                          *)
 (*   Create(conv, cfg)      get_converter() / get_converter(user converter) *)
 (*   Probe(conv, input)     structure + unstructure of battery item input   *)
+(*   Drop                   all converters so far are released              *)
 (*                                                                          *)
 (* The specification of "independent of creation order, count, threads":   *)
 (* what a converter returns depends only on its own configuration class    *)
@@ -27,7 +28,9 @@ CONSTANTS MaxLen,     \* generation: history length bound
           NRuns,      \* trace: number of runs in the trace file
           NEvents     \* trace: total number of events
 
-Cfgs == {"fresh", "user", "user_nodetail", "same_again", "user_hook"}
+\* "drop": every converter created so far is released (garbage); what later converters return must not
+\* depend on it either - the specification has no notion of object identity or address at all
+Cfgs == {"fresh", "user", "user_nodetail", "same_again", "user_hook", "drop"}
 
 VARIABLES svHistory,
           svR,      \* trace: run being replayed
